@@ -1311,6 +1311,591 @@ def _passes_text(node, methods):
         return False
 
 
+# ------------------------------------------------------------------------------------------ R6
+# "blank is a value": '' is a legal username / password / database / query key / query value (the writer emits the
+# component's delimiter followed by nothing; quote('') == '' and parse_qsl(keep_blank_values=True) hands '' back), and
+# it is *different* from an absent (None / missing) one.  A branch that decides on the truthiness of such a text treats
+# the two alike.  The rule looks at every test of that kind on the round-trip path (make_url -> _parse_url and its
+# helpers -> URL.create and the helpers it calls; render_as_string and its helpers) and, for each truthiness test,
+# evaluates both outcomes for the value '' -- once with Python's semantics ('' is falsy) and once "as if present" --
+# and compares what is left of the code: equal residues mean the test cannot tell the difference (harmless).
+BLANK_PRESERVING = {"quote", "quote_plus", "unquote", "unquote_plus", "str", "cast"}   # f('') == '' (urllib / Python documentation)
+_SEQ_MAKERS = {"list", "tuple", "sorted", "set", "frozenset", "reversed", "iter", "dict", "immutabledict", "OrderedDict"}
+_ELEMENT_READS = {"get", "pop", "setdefault"}
+_ADDERS = {"append", "add", "extend", "insert"}
+_TERMINATORS = (ast.Return, ast.Raise, ast.Continue, ast.Break)
+
+
+class _K:
+    """What an expression can evaluate to, as far as this rule cares: kinds ⊆ {'text', 'container'}; `it` / `sub` describe
+    what iterating / subscripting a container yields."""
+
+    def __init__(self, kinds, label, it=None, sub=None, slot=None):
+        self.kinds, self.label, self.it, self.sub, self.slot = frozenset(kinds), label, it, sub, slot
+
+    @staticmethod
+    def text(label):
+        return _K({"text"}, label)
+
+    @staticmethod
+    def seq(label, elem):
+        return _K({"container"}, label, it=elem, sub=elem)
+
+    def join(self, other):
+        if other is None:
+            return self
+        return _K(self.kinds | other.kinds, self.label, _K._j(self.it, other.it), _K._j(self.sub, other.sub))
+
+    @staticmethod
+    def _j(a, b):
+        return b if a is None else a.join(b)
+
+
+def _kjoin(ks):
+    out = None
+    for k in ks:
+        if k is not None:
+            out = k if out is None else out.join(k)
+    return out
+
+
+def _last_name(c):
+    if isinstance(c.func, ast.Attribute):
+        return c.func.attr
+    return (call_name(c) or "").rsplit(".", 1)[-1]
+
+
+class _BlankScope:
+    """One function on the round-trip path with what is known about its inputs: `leaf(expr, scope)` recognises the
+    scope's sources (regex groups / `self.<field>`), `params` maps parameter names to _K."""
+
+    def __init__(self, ctx, fn, leaf, params, role):
+        from ..astutil import parent_map
+        self.ctx, self.fn, self.leaf, self.params, self.role = ctx, fn, leaf, params, role
+        self.defs = local_defs(fn.node)
+        self.pm = parent_map(fn.node)
+        self.g = ctx.cfg(fn)
+        self._rd = None
+        self._busy = set()
+        self.loop_iters, self.stored, self.keyed = {}, {}, {}
+        for n in walk_local(fn.node, into_nested=True):
+            if isinstance(n, (ast.For, ast.AsyncFor, ast.comprehension)):
+                for t in _target_names(n.target):
+                    self.loop_iters.setdefault(t, []).append(n.iter)
+            elif isinstance(n, ast.Assign):
+                for t in n.targets:
+                    if isinstance(t, ast.Subscript) and isinstance(t.value, ast.Name):
+                        self.stored.setdefault(t.value.id, []).append(n.value)
+                        self.keyed.setdefault(t.value.id, []).append(t.slice)
+            elif isinstance(n, ast.Call) and isinstance(n.func, ast.Attribute) and n.args and \
+                    n.func.attr in _ADDERS | {"setdefault"}:
+                base, via_element = n.func.value, False
+                while isinstance(base, ast.Call) and base.args and _last_name(base) in ("cast", "list"):
+                    base = base.args[-1]
+                while isinstance(base, ast.Subscript):
+                    base, via_element = base.value, True
+                if isinstance(base, ast.Name):
+                    v = n.args[-1]
+                    self.stored.setdefault(base.id, []).append(ast.List(elts=[v], ctx=ast.Load()) if via_element else v)
+                    if n.func.attr == "setdefault":
+                        self.keyed.setdefault(base.id, []).append(n.args[0])
+
+    # -- reaching definitions of a local at one of its uses
+    def _reaching(self, use, name):
+        from ._helpers_rob_c2 import ReachingDefs
+        from ..cfg import no_exc
+        if self._rd is None:
+            self._rd = ReachingDefs(self.g, self.fn.node, edge_ok=no_exc)
+        nodes = self.g.nodes_containing(use)
+        return self._rd.at(nodes[0], name) if nodes else []
+
+    def kind(self, e, depth=0):
+        if e is None or depth > 12:
+            return None
+        k = self.leaf(e, self)
+        if k is not None:
+            return k
+        if isinstance(e, ast.Name):
+            if e.id in self._busy:
+                return None
+            self._busy.add(e.id)
+            try:
+                return self._name_kind(e, depth)
+            finally:
+                self._busy.discard(e.id)
+        if isinstance(e, ast.NamedExpr):
+            return self.kind(e.value, depth + 1)
+        if isinstance(e, ast.IfExp):
+            return _kjoin([self.kind(e.body, depth + 1), self.kind(e.orelse, depth + 1)])
+        if isinstance(e, ast.BoolOp):
+            return _kjoin([self.kind(v, depth + 1) for v in e.values])
+        if isinstance(e, (ast.List, ast.Tuple, ast.Set)):
+            el = _kjoin([self.kind(x, depth + 1) for x in e.elts])
+            return _K.seq(el.label, el) if el is not None else None
+        if isinstance(e, ast.Subscript):
+            b = self.kind(e.value, depth + 1)
+            if b is not None and "container" in b.kinds and b.sub is not None and not isinstance(e.slice, ast.Slice):
+                return _K(b.sub.kinds, b.sub.label, b.sub.it, b.sub.sub, slot=unparse(e))
+            return None
+        if isinstance(e, ast.Call):
+            last = _last_name(e)
+            if isinstance(e.func, ast.Attribute):
+                b = self.kind(e.func.value, depth + 1)
+                if b is not None and "container" in b.kinds:
+                    if last in _ELEMENT_READS and e.args and b.sub is not None:
+                        k = _K(b.sub.kinds, b.sub.label, b.sub.it, b.sub.sub, slot=f"{unparse(e.func.value)}[{unparse(e.args[0])}]")
+                        return k
+                    if last == "items":
+                        el = _kjoin([b.it, b.sub])
+                        return _K.seq(b.label, el) if el is not None else None
+                    if last == "keys" and b.it is not None:
+                        return _K.seq(b.label, b.it)
+                    if last == "values" and b.sub is not None:
+                        return _K.seq(b.label, b.sub)
+                    if last == "copy":
+                        return b
+            if last in ("cast", "str") and e.args:
+                return self.kind(e.args[-1], depth + 1)
+            if last == "to_list" and e.args:
+                b = self.kind(e.args[0], depth + 1)
+                if b is None:
+                    return None
+                el = _kjoin([_K(b.kinds & {"text"}, b.label) if "text" in b.kinds else None, b.it])
+                return _K.seq(b.label, el) if el is not None else None
+            if last in _SEQ_MAKERS and len(e.args) == 1:
+                b = self.kind(e.args[0], depth + 1)
+                if b is not None and "container" in b.kinds:
+                    return b if last in ("dict", "immutabledict", "OrderedDict") else (_K.seq(b.label, b.it) if b.it is not None else None)
+        return None
+
+    def _name_kind(self, e, depth):
+        nm = e.id
+        found = []
+        ds = self._reaching(e, nm)
+        for d in ds:
+            if d.kind == "param":
+                found.append(self.params.get(nm))
+            elif d.kind == "assign" and d.path == () and d.value is not None:
+                found.append(self.kind(d.value, depth + 1))
+            elif d.kind == "for" and d.value is not None:
+                b = self.kind(d.value, depth + 1)
+                if b is not None and "container" in b.kinds:
+                    found.append(b.it)
+        if not ds:
+            if nm in self.params:
+                found.append(self.params[nm])
+            elif nm in self.defs:
+                found.append(self.kind(self.defs[nm], depth + 1))
+            for it in self.loop_iters.get(nm, []):     # comprehension targets have no CFG definition
+                b = self.kind(it, depth + 1)
+                if b is not None and "container" in b.kinds:
+                    found.append(b.it)
+        k = _kjoin(found)
+        if k is None and nm in self.stored:
+            # an accumulator: a local container into which carried text is stored
+            vals = [self.kind(v, depth + 1) for v in self.stored[nm]]
+            keys = [self.kind(x, depth + 1) for x in self.keyed.get(nm, [])]
+            if any(v is not None for v in vals + keys):
+                sub_ = _kjoin(vals)
+                base = (_kjoin(keys) or sub_).label
+                if sub_ is not None:
+                    sub_ = _K(sub_.kinds, base + "-accumulator-entry", sub_.it, sub_.sub)
+                k = _K({"container"}, base + "-accumulator", it=_kjoin(keys), sub=sub_)
+        return k
+
+
+class _BlankEval(ast.NodeTransformer):
+    """`x := ''` partial evaluation of expressions and statement lists.  present=False: Python's semantics ('' is falsy);
+    present=True: the same text treated as a value that is there (truthy) -- afterwards it is the same ''."""
+
+    def __init__(self, x_texts, slot_texts, preserving, present, booldefs=None):
+        self.x_texts, self.slot_texts, self.preserving, self.present = x_texts, slot_texts, preserving, present
+        self.booldefs = booldefs or {}     # boolean locals bound once (`has_db = self.database is not None`)
+
+    def _blank(self):
+        c = ast.Constant(value="")
+        c._c20_blank = True
+        return c
+
+    @staticmethod
+    def _is_blank(n):
+        return isinstance(n, ast.Constant) and n.value == ""
+
+    def truth(self, n):
+        if isinstance(n, ast.Constant):
+            if getattr(n, "_c20_blank", False):
+                return self.present
+            return bool(n.value)
+        if isinstance(n, ast.UnaryOp) and isinstance(n.op, ast.Not):
+            t = self.truth(n.operand)
+            return None if t is None else not t
+        if isinstance(n, ast.Compare) and len(n.ops) == 1 and isinstance(n.ops[0], (ast.Is, ast.IsNot)):
+            l, r_ = n.left, n.comparators[0]
+            if (self._is_blank(l) and isinstance(r_, ast.Constant) and r_.value is None) or \
+                    (self._is_blank(r_) and isinstance(l, ast.Constant) and l.value is None):
+                return isinstance(n.ops[0], ast.IsNot)
+        return None
+
+    def visit(self, node):
+        if isinstance(node, ast.expr) and isinstance(getattr(node, "ctx", ast.Load()), ast.Load) and \
+                not isinstance(node, ast.Constant) and unparse(node) in self.x_texts:
+            return self._blank()
+        if isinstance(node, ast.Name) and isinstance(node.ctx, ast.Load) and node.id in self.booldefs and self._depth < 4:
+            import copy
+            self._depth += 1
+            try:
+                return self.visit(copy.deepcopy(self.booldefs[node.id]))
+            finally:
+                self._depth -= 1
+        return super().visit(node)
+
+    _depth = 0
+
+    def visit_NamedExpr(self, node):
+        return self.visit(node.value)
+
+    def visit_Call(self, node):
+        self.generic_visit(node)
+        last = _last_name(node)
+        if last in self.preserving and node.args:
+            arg = node.args[-1] if last == "cast" else node.args[0]
+            if self._is_blank(arg):
+                return arg
+        return node
+
+    def visit_BinOp(self, node):
+        self.generic_visit(node)
+        if isinstance(node.op, ast.Add):
+            if self._is_blank(node.left):
+                return node.right
+            if self._is_blank(node.right):
+                return node.left
+        return node
+
+    def visit_UnaryOp(self, node):
+        self.generic_visit(node)
+        t = self.truth(node)
+        return ast.Constant(value=t) if t is not None else node
+
+    def visit_Compare(self, node):
+        self.generic_visit(node)
+        t = self.truth(node)
+        return ast.Constant(value=t) if t is not None else node
+
+    def visit_BoolOp(self, node):
+        self.generic_visit(node)
+        is_or = isinstance(node.op, ast.Or)
+        rest = list(node.values)
+        while len(rest) > 1:
+            t = self.truth(rest[0])
+            if t is None:
+                break
+            if t == is_or:          # short circuit: `T or ..` / `F and ..`
+                return rest[0]
+            rest = rest[1:]
+        if len(rest) == 1:
+            return rest[0]
+        node.values = rest
+        return node
+
+    def visit_IfExp(self, node):
+        node.test = self.visit(node.test)
+        t = self.truth(node.test)
+        if t is not None:
+            return self.visit(node.body if t else node.orelse)
+        node.body, node.orelse = self.visit(node.body), self.visit(node.orelse)
+        return node
+
+    # statements ---------------------------------------------------------------------------------
+    def block(self, stmts):
+        """(residue lines, terminated?) of a statement list."""
+        import copy
+        out = []
+        for st in stmts:
+            if isinstance(st, ast.If):
+                test = self.visit(copy.deepcopy(st.test))
+                t = self.truth(test)
+                if t is None:
+                    b, _tb = self.block(st.body)
+                    o, _to = self.block(st.orelse)
+                    out.append(f"if {unparse(test)}: {b} else: {o}")
+                    continue
+                lines, term = self.block(st.body if t else st.orelse)
+                out.extend(lines)
+                if term:
+                    return out, True
+                continue
+            if isinstance(st, ast.Pass):
+                continue
+            new = self.visit(copy.deepcopy(st))
+            if isinstance(new, ast.Assign) and self._is_blank(new.value) and all(unparse(t) in self.slot_texts for t in new.targets):
+                continue        # stores '' back where '' was read from
+            if isinstance(new, ast.AugAssign) and isinstance(new.op, ast.Add) and self._is_blank(new.value):
+                continue        # appends nothing
+            if isinstance(new, ast.Expr) and isinstance(new.value, ast.Constant):
+                continue
+            out.append(unparse(new))
+            if isinstance(st, _TERMINATORS):
+                return out, True
+        return out, False
+
+
+def _identity_callees(ctx, mod):
+    """names of functions / methods of engine/url.py that hand their first argument back unchanged on every normal path
+    (validators such as _assert_str): f('') is ''."""
+    cache = ctx.__dict__.setdefault("_c20_identity", {})
+    if mod.relpath in cache:
+        return cache[mod.relpath]
+    cands = [f for f in ctx.index.all_functions(mod) if not f.type_only and not f.is_overload]
+    out = set()
+
+    def is_id(v, p, depth=0):
+        if isinstance(v, ast.Name):
+            return v.id == p
+        if isinstance(v, ast.IfExp):
+            return is_id(v.body, p) and is_id(v.orelse, p)
+        if isinstance(v, ast.Call) and v.args and depth < 3:
+            last = _last_name(v)
+            if last in out or last in ("str", "cast"):
+                return is_id(v.args[-1] if last == "cast" else v.args[0], p, depth + 1)
+        return False
+    changed = True
+    while changed:
+        changed = False
+        for f in cands:
+            if f.name in out:
+                continue
+            ps = [p for p in f.params if p not in ("self", "cls")]
+            rets = returns_of(f.node)
+            if ps and rets and all(r_.value is not None and is_id(r_.value, ps[0]) for r_ in rets):
+                out.add(f.name)
+                changed = True
+    cache[mod.relpath] = out
+    return out
+
+
+def _leaf_atoms(e, out, covered):
+    if isinstance(e, ast.UnaryOp) and isinstance(e.op, ast.Not):
+        covered.add(id(e))
+        _leaf_atoms(e.operand, out, covered)
+    elif isinstance(e, ast.BoolOp):
+        covered.add(id(e))
+        for v in e.values:
+            _leaf_atoms(v, out, covered)
+    else:
+        out.append(e)
+
+
+def _truth_sites(fn_node):
+    """[(atom, site kind, site node)]: every expression whose truth value decides something.  kinds: 'if' (statement),
+    'ifexp', 'filter' (comprehension condition), 'boolop' (a non-final operand of and/or in a value position)."""
+    sites, covered = [], set()
+    nodes = list(walk_local(fn_node, into_nested=True))
+    for n in nodes:
+        roots = []
+        if isinstance(n, ast.If):
+            roots = [(n.test, "if", n)]
+        elif isinstance(n, ast.IfExp):
+            roots = [(n.test, "ifexp", n)]
+        elif isinstance(n, ast.comprehension):
+            roots = [(t, "filter", n) for t in n.ifs]
+        for root, kind, site in roots:
+            atoms = []
+            _leaf_atoms(root, atoms, covered)
+            sites.extend((a, kind, site) for a in atoms)
+    for n in nodes:
+        if isinstance(n, ast.BoolOp) and id(n) not in covered:
+            for v in n.values[:-1]:
+                atoms = []
+                _leaf_atoms(v, atoms, covered)
+                sites.extend((a, "boolop", n) for a in atoms)
+    return sites
+
+
+def _blank_scopes(ctx, w, rx, create, blank_fields):
+    """the functions of the round-trip path with their sources."""
+    scopes, seen = [], set()
+    qval = _K({"text", "container"}, "query-value", it=_K.text("query-value"), sub=_K.text("query-value"))
+    qmap = _K({"container"}, "query", it=_K.text("query-key"), sub=qval)
+
+    def follow(sc, leaf_for, depth, module_level_only):
+        scopes.append(sc)
+        if depth >= 2:
+            return
+        for c in calls_in(sc.fn.node, into_nested=True):
+            target, bound_self = _resolve_helper(ctx, c, sc.fn)
+            if target is None or target.node is sc.fn.node or (module_level_only and target.cls is not None):
+                continue
+            a = target.node.args
+            if a.vararg is not None or any(isinstance(x, ast.Starred) for x in c.args) or any(k.arg is None for k in c.keywords):
+                continue
+            pos = [x.arg for x in a.posonlyargs + a.args]
+            if bound_self and pos:
+                pos = pos[1:]
+            params = {}
+            for p_, arg in list(zip(pos, c.args)) + [(k.arg, k.value) for k in c.keywords]:
+                k = sc.kind(arg)
+                if k is not None:
+                    params[p_] = k
+            sig = (target.key, tuple(sorted((p_, k.label, tuple(sorted(k.kinds))) for p_, k in params.items())))
+            if sig in seen:
+                continue
+            seen.add(sig)
+            ctx.functions_analysed.add(target.key)
+            follow(_BlankScope(ctx, target, leaf_for(target), params, sc.role), leaf_for, depth + 1, module_level_only)
+
+    # reader: regex groups and what parse_qsl() hands back
+    rscopes = {sc.fn.key: sc for sc in _reader_scopes(ctx, rx)}
+
+    def reader_leaf_for(fn):
+        rsc = rscopes.get(fn.key)
+
+        def leaf(e, _sc):
+            if isinstance(e, ast.Call) and _last_name(e) in ("parse_qsl", "parse_qs"):
+                return _K.seq("query-string", _K.text("query-item"))
+            if rsc is not None and (isinstance(e, ast.Subscript) or (isinstance(e, ast.Call) and isinstance(e.func, ast.Attribute)
+                                                                      and e.func.attr in ("get", "pop", "group") and e.args)):
+                gs = sorted(_groups_of(e, rsc) & blank_fields)
+                if gs:
+                    slot = unparse(e) if isinstance(e, ast.Subscript) else f"{unparse(e.func.value)}[{unparse(e.args[0])}]"
+                    return _K({"text"}, "/".join(gs), slot=slot)
+            return None
+        return leaf
+    follow(_BlankScope(ctx, rx, reader_leaf_for(rx), {}, "reader"), reader_leaf_for, 0, True)
+
+    # constructor: the parameters of URL.create
+    def no_leaf_for(_fn):
+        return lambda e, _sc: None
+    cparams = {p: _K.text(p) for p in create.params if p in blank_fields}
+    if "query" in create.params:
+        cparams["query"] = qmap
+    follow(_BlankScope(ctx, create, no_leaf_for(create), cparams, "constructor"), no_leaf_for, 0, False)
+
+    # writer: the fields of self
+    def writer_leaf_for(_fn):
+        def leaf(e, _sc):
+            f_ = self_attr(e)
+            if f_ in blank_fields:
+                return _K({"text"}, f_, slot=unparse(e))
+            if f_ == "query":
+                return qmap
+            return None
+        return leaf
+    follow(_BlankScope(ctx, w, writer_leaf_for(w), {}, "writer"), writer_leaf_for, 0, False)
+    return scopes
+
+
+@R.rule("C20-R6", floor=8, template="T-GUARD",
+        desc="'' is a value, not an absence: on the round-trip path (_parse_url and helpers, URL.create and the validators it "
+             "calls, render_as_string and helpers) presence of a username / password / database text, of a query key / value "
+             "and of what the query accumulator holds for a key is decided by `is None` / membership; a truthiness test on "
+             "such a text must leave the same code to run for '' whichever way it goes")
+def r6(ctx):
+    w = ctx.func(f"{URLPY}::URL.render_as_string")
+    rx = ctx.func(f"{URLPY}::_parse_url")
+    create = ctx.func(f"{URLPY}::URL.create")
+    wc = _writer_codecs(ctx, w)
+    blank_fields = {f_ for f_ in ENCODED if wc.get(f_)}
+    ctx.require(blank_fields, "render_as_string: no percent-encoded text component found")
+    preserving = BLANK_PRESERVING | _identity_callees(ctx, rx.module)
+    verdicts = {}      # key -> (bad messages, ok details, loc)
+
+    def record(sc, label, bad=None, ok=None, node=None):
+        key = f"{sc.fn.key}:blank-vs-absent:{label}"
+        ent = verdicts.setdefault(key, ([], [], f"{sc.fn.module.path}:{getattr(node, 'lineno', sc.fn.node.lineno)}"))
+        if bad:
+            ent[0].append(bad)
+        if ok:
+            ent[1].append(ok)
+
+    for sc in _blank_scopes(ctx, w, rx, create, blank_fields):
+        booldefs = {n_: v for n_, v in sc.defs.items() if isinstance(v, (ast.Compare, ast.BoolOp, ast.UnaryOp))}
+        sites = []
+        for atom, skind, site in _truth_sites(sc.fn.node):
+            if isinstance(atom, ast.Name) and atom.id in booldefs:      # a boolean local: judge what it was computed from
+                inner = []
+                _leaf_atoms(booldefs[atom.id], inner, set())
+                sites.extend((a_, skind, site) for a_ in inner)
+            else:
+                sites.append((atom, skind, site))
+        for atom, skind, site in sites:
+            # presence tests that tell '' from an absent value
+            if isinstance(atom, ast.Compare) and len(atom.ops) == 1:
+                op, l, r_ = atom.ops[0], atom.left, atom.comparators[0]
+                if isinstance(op, (ast.Is, ast.IsNot)):
+                    other = r_ if (isinstance(l, ast.Constant) and l.value is None) else (l if isinstance(r_, ast.Constant) and r_.value is None else None)
+                    k = sc.kind(other) if other is not None else None
+                    if k is not None and "text" in k.kinds:
+                        for lab in k.label.split("/"):
+                            record(sc, lab, ok=f"`{unparse(atom)}`", node=atom)
+                elif isinstance(op, (ast.In, ast.NotIn)):
+                    kc, kl = sc.kind(r_), sc.kind(l)
+                    if kc is not None and "container" in kc.kinds and kl is not None and "text" in kl.kinds and \
+                            isinstance(r_, ast.Name) and r_.id in sc.stored:
+                        record(sc, kc.label, ok=f"membership `{unparse(atom)}`", node=atom)
+                continue
+            subject = atom
+            if isinstance(atom, ast.Call) and _last_name(atom) == "len" and len(atom.args) == 1:
+                subject = atom.args[0]
+            elif isinstance(atom, ast.Call) and _last_name(atom) in ("isinstance", "hasattr", "callable"):
+                continue
+            k = sc.kind(subject)
+            if k is None or "text" not in k.kinds:
+                continue
+            # a truthiness test on a text that may be '': do both outcomes leave the same code for ''?
+            x_texts = {unparse(subject)}
+            cur = subject.value if isinstance(subject, ast.NamedExpr) else subject
+            if isinstance(subject, ast.NamedExpr):
+                x_texts |= {subject.target.id, unparse(cur)}
+            hops = 0
+            while isinstance(cur, ast.Name) and hops < 4:
+                ds = [d for d in sc._reaching(subject, cur.id) if d.kind == "assign" and d.path == () and d.value is not None]
+                nxt = ds[0].value if len(ds) == 1 else sc.defs.get(cur.id)
+                if nxt is None:
+                    break
+                x_texts.add(unparse(nxt))
+                cur, hops = nxt, hops + 1
+            slots = {t for t in x_texts} | ({k.slot} if k.slot else set())
+            if k.slot:
+                x_texts.add(k.slot)
+            real = _BlankEval(x_texts, slots, preserving, False, booldefs)
+            hyp = _BlankEval(x_texts, slots, preserving, True, booldefs)
+            import copy
+            if skind == "filter":
+                same, how = False, "the item is skipped"
+            elif skind in ("ifexp", "boolop"):
+                a_, b_ = unparse(real.visit(copy.deepcopy(site))), unparse(hyp.visit(copy.deepcopy(site)))
+                same, how = a_ == b_, f"`{unparse(site)}` evaluates to {a_} where a present value gives {b_}"
+            else:
+                blk = sc.pm.get(site)
+                rest = []
+                for fld in ("body", "orelse", "finalbody"):
+                    seq = getattr(blk, fld, None)
+                    if isinstance(seq, list) and any(s is site for s in seq):
+                        rest = seq[[i for i, s in enumerate(seq) if s is site][0]:]
+                if not rest:
+                    rest = [site]
+                (ra, _t1), (rb, _t2) = real.block(rest), hyp.block(rest)
+                same = ra == rb
+                how = (f"what runs for '' is {('; '.join(ra) or 'nothing')[:160]!r}, for any other present value "
+                       f"{('; '.join(rb) or 'nothing')[:160]!r}")
+            labs = k.label.split("/")
+            if same:
+                for lab in labs:
+                    record(sc, lab, ok=f"truthiness test `{unparse(atom)}` cannot tell '' from a present value (same residue)", node=atom)
+                continue
+            origin = "" if unparse(subject) in (k.slot, None) or not k.slot else f" (= `{k.slot}`)"
+            for lab in labs:
+                record(sc, lab, node=atom, bad=(
+                    f"`{unparse(atom)}`{origin} in {sc.fn.qualname}() decides on the truthiness of the `{lab}` text: "
+                    f"'' is a legal value (render_as_string writes the delimiter followed by nothing and the reader hands '' back) "
+                    f"but is treated like an absent one -- {how}; presence must be tested with `is None` / `in`, so "
+                    f"make_url(u.render_as_string(hide_password=False)) != u for a blank value"))
+    for key in sorted(verdicts):
+        bad, ok, loc = verdicts[key]
+        ctx.check(not bad, key, "; ".join(bad), "; ".join(ok)[:200], loc)
+
+
 # ------------------------------------------------------------------------------------------ self test
 R.mutant("r1-password-not-unquoted", URLPY,
          sub('        for comp in "username", "password", "database":\n', '        for comp in "username", "database":\n'), "C20-R1")
@@ -1561,3 +2146,59 @@ R.mutant("r5-value-local-stripped-after-decoding", URLPY,
              '                components[comp] = unquote(components[comp])\n',
              '        for comp in ("username", "password", "database"):\n            value = components[comp]\n'
              '            if value is not None:\n                value = unquote(value)\n                components[comp] = value.strip()\n'), "C20-R5")
+
+# ---- round-2 seeds (str2-i): C20-R6, '' is a value -----------------------------------------------------------------
+_ACC_TEST = ('                if key in query:\n                    query[key] = util.to_list(query[key])\n'
+             '                    cast("List[str]", query[key]).append(value)\n')
+# seed C20_3: presence of the key in the accumulator decided by the truthiness of what is stored for it
+R.mutant("r6-seed3-accumulator-presence-by-truthiness", URLPY,
+         sub(_ACC_TEST, '                existing = query.get(key)\n                if existing:\n'
+                        '                    query[key] = existing = util.to_list(existing)\n'
+                        '                    existing.append(value)\n'), "C20-R6")
+R.mutant("r6-accumulator-get-in-test", URLPY, sub('                if key in query:\n', '                if query.get(key):\n'), "C20-R6")
+R.mutant("r6-accumulator-truthiness-inside-query-helper", URLPY,
+         chain(_qs_helper("parse_qsl(query_string, keep_blank_values=True)"),
+               sub('        if key in query:\n', '        if query.get(key, None):\n')), "C20-R6")
+# seed C20_4: the constructor collapses '' to None although the writer emits `user:pw@` iff username is not None
+R.mutant("r6-seed4-create-blank-username-to-none", URLPY,
+         sub('            cls._assert_none_str(username, "username"),\n', '            cls._assert_none_str(username or None, "username"),\n'), "C20-R6")
+R.mutant("r6-create-blank-database-to-none-ifexp", URLPY,
+         sub('            cls._assert_none_str(database, "database"),\n',
+             '            cls._assert_none_str(database if database else None, "database"),\n'), "C20-R6")
+R.mutant("r6-validator-maps-blank-to-none", URLPY,
+         sub('        if v is None:\n            return v\n\n        return cls._assert_str(v, paramname)\n',
+             '        if not v:\n            return None\n\n        return cls._assert_str(v, paramname)\n'), "C20-R6")
+R.mutant("r6-writer-database-by-truthiness", URLPY,
+         sub('        if self.database is not None:\n', '        if self.database:\n'), "C20-R6")
+R.mutant("r6-writer-password-flag-by-truthiness", URLPY,
+         sub('            if self.password is not None:\n                s += ":" + (\n',
+             '            no_password = not self.password\n            if not no_password:\n                s += ":" + (\n'), "C20-R6")
+R.mutant("r6-writer-skips-blank-query-values", URLPY,
+         sub('                for element in util.to_list(self.query[k])\n',
+             '                for element in util.to_list(self.query[k])\n                if element\n'), "C20-R6")
+R.mutant("r6-reader-blank-password-becomes-none", URLPY,
+         sub('            if components[comp] is not None:\n                components[comp] = unquote(components[comp])\n',
+             '            components[comp] = unquote(components[comp]) if components[comp] else None\n'), "C20-R6")
+# the same places written differently, '' still told from None / missing
+R.mutant("benign-r6-accumulator-presence-via-get-is-none", URLPY,
+         sub(_ACC_TEST, '                existing = query.get(key)\n                if existing is not None:\n'
+                        '                    query[key] = existing = util.to_list(existing)\n'
+                        '                    existing.append(value)\n'), None)
+R.mutant("benign-r6-accumulator-branches-swapped", URLPY,
+         sub(_ACC_TEST + '                else:\n                    query[key] = value\n',
+             '                if key not in query:\n                    query[key] = value\n                else:\n'
+             '                    values = util.to_list(query[key])\n                    values.append(value)\n'
+             '                    query[key] = values\n'), None)
+R.mutant("benign-r6-decode-under-truthiness", URLPY,       # unquote('') == '': both outcomes agree for a blank text
+         sub('            if components[comp] is not None:\n', '            if components[comp]:\n'), None)
+R.mutant("benign-r6-validator-inverted", URLPY,
+         sub('        if v is None:\n            return v\n\n        return cls._assert_str(v, paramname)\n',
+             '        if v is not None:\n            return cls._assert_str(v, paramname)\n        return None\n'), None)
+R.mutant("benign-r6-create-validates-through-local", URLPY,
+         sub('        return cls(\n            cls._assert_str(drivername, "drivername"),\n            cls._assert_none_str(username, "username"),\n',
+             '        user = cls._assert_none_str(username, "username")\n'
+             '        return cls(\n            cls._assert_str(drivername, "drivername"),\n            user,\n'), None)
+R.mutant("benign-r6-writer-presence-flags", URLPY,
+         chain(sub('        if self.database is not None:\n', '        has_database = self.database is not None\n        if has_database:\n'),
+               sub('            if self.password is not None:\n                s += ":" + (\n',
+                   '            no_password = self.password is None\n            if not no_password:\n                s += ":" + (\n')), None)
